@@ -16,7 +16,8 @@ RULE = (
     "and att2name(name) == K. distinct = blake2b(name); non-trivial = the name is indexed or is not a plain 'DFnnn' key"
 )
 ASSUMPTIONS = ["count attributes NSat/NSig/NCell do not stem from a data field and are not covered by the statement"]
-GATES = ["names_checked", "indexed_names", "nested_names", "three_digit_names", "idf_names", "derived_names"]
+GATES = ["names_checked", "indexed_names", "nested_names", "three_digit_names", "idf_names", "derived_names",
+         "messages_aligned_by_position"]
 
 
 def check_message(ctx, identity, enc):
@@ -30,9 +31,19 @@ def check_message(ctx, identity, enc):
         ctx.hit("unparseable(C03-matter)")
         return True
     present = set(k for k in m.__dict__ if not k.startswith("_"))
-    for f in enc.fields:
+    # the names the parser ACTUALLY produced, matched by position with the fields the generator encoded: a name that
+    # is spelt differently from the generator's still "occurs on a message" and the helpers must handle it
+    actual = [k for k in m.__dict__ if not k.startswith("_") and k not in ("NSat", "NSig", "NCell")]
+    refnames = [f["name"] if f["typ"] != "STR" else f["key"] for f in enc.fields]
+    aligned = len(actual) == len(refnames)
+    if aligned:
+        ctx.hit("messages_aligned_by_position")
+    for pos, f in enumerate(enc.fields):
         name = f["name"] if f["typ"] != "STR" else f["key"]
         idx = f["index"] if f["typ"] != "STR" else ()
+        if aligned and actual[pos] != name and f["typ"] != "STR":
+            name = actual[pos]
+            ctx.hit("names_spelt_differently_by_parser")
         if name in ctx.seen:
             continue
         ctx.seen.add(name)
